@@ -332,6 +332,65 @@ def solve_task(task):
             "time": round(time.time() - t0, 3), "log": log}
 
 
+_OBS = []          # obligations visible to forked workers (set by run_obligations before the pool starts)
+
+
+def _ob_task(args):
+    """worker: export (in the child: z3 terms are inherited through fork) and solve"""
+    k, timeout, steps, tiers, dump = args
+    ob = _OBS[k]
+    try:
+        watches = (ob.meta or {}).get("watches")
+        full, names = to_smt2(ob, watches)
+        text, _ = to_smt2(ob, watches, filtered=True)
+        opts = {"steps": steps, "full_text": full if full != text else None}
+        if tiers:
+            tt = []
+            for mt in (0, 1):
+                t_, _ = to_smt2(ob, None, maxtier=mt)
+                if t_ != text and (not tt or tt[-1] != t_):
+                    tt.append(t_)
+            opts["tier_texts"] = tt
+        if dump:
+            os.makedirs("/var/tmp/pyvc_dump", exist_ok=True)
+            open("/var/tmp/pyvc_dump/" + re.sub(r"[^A-Za-z0-9_.=,+-]+", "_", ob.name)[:150] + ".smt2", "w").write(text)
+    except Exception as e:
+        return {"name": ob.name, "status": "unknown", "info": "export error: %r" % (e,), "backend": "-", "time": 0.0,
+                "log": [], "names": [], "head": ""}
+    r = solve_task((ob.name, text, timeout, opts))
+    r["names"] = names
+    r["head"] = text[:600]
+    return r
+
+
+def run_obligations(obs, specs, procs=None):
+    """obs: Obligation list; specs: list of (timeout, steps, tiers, dump) per obligation"""
+    global _OBS
+    _OBS = list(obs)
+    procs = procs or min(16, os.cpu_count() or 4)
+    results = {}
+    if not obs:
+        return results
+    args = [(k,) + tuple(specs[k]) for k in range(len(obs))]
+    if procs == 1 or len(obs) == 1:
+        for a in args:
+            r = _ob_task(a)
+            results[r["name"]] = r
+        return results
+    ctx = mp.get_context("fork")
+    with ProcessPoolExecutor(max_workers=procs, mp_context=ctx) as ex:
+        futs = {ex.submit(_ob_task, a): a[0] for a in args}
+        for f in as_completed(futs):
+            k = futs[f]
+            try:
+                r = f.result()
+            except Exception as e:
+                r = {"name": obs[k].name, "status": "unknown", "info": "worker died: %r" % (e,), "backend": "-",
+                     "time": 0.0, "log": [], "names": [], "head": ""}
+            results[r["name"]] = r
+    return results
+
+
 def run_all(tasks, procs=None, progress=None):
     """tasks: list of (name, smt2, timeout, opts). Returns dict name -> result"""
     procs = procs or min(16, os.cpu_count() or 4)
